@@ -72,6 +72,10 @@ def pureRows (w : Worker) (c : Content) : List (Label × Row) → Except Err (Li
       | .error e => .error e
       | .ok ps => .ok ((lr.1, p) :: ps)
 
+/-- re-checked against the source on every run: `_update_parameters_and_initial_conditions` starts with
+    `model = deepcopy(model)` -/
+theorem shippedCopyFirst_eq : shippedCopyFirst = true := by decide
+
 theorem seqScan_char (w : Worker) (c : Content) (cell : Nat) :
     ∀ (rows : List (Label × Row)) (h : Heap), h.read cell = .ok c →
       seqScan w h cell rows =
@@ -84,6 +88,7 @@ theorem seqScan_char (w : Worker) (c : Content) (cell : Nat) :
   | cons lr rest ih =>
     intro h hc
     unfold seqScan at ih ⊢
+    rw [shippedCopyFirst_eq] at ih ⊢
     unfold seqScanWith pureRows
     rw [rowTask_copy w h cell lr.2 c hc]
     cases rowPure w c lr.2 with
